@@ -45,7 +45,7 @@ def obs_box(dist):
 
 def gen_case(rnd, tier):
     d = rnd.choice([1, 2, 3])
-    c = {"d": d, "old": rbox(rnd, d), "mode": rnd.choice(["plain", "plain", "additive", "composite"])}
+    c = {"d": d, "old": rbox(rnd, d), "mode": rnd.choice(["plain", "plain", "additive", "additive", "composite", "composite_own"])}
     x = rnd.random()
     if x < 0.45:
         c["args"] = rbox(rnd, d)
@@ -65,9 +65,17 @@ def gen_case(rnd, tier):
     c["points"] = [([rnd.randint(-40, 40) / 8.0 for _ in range(d)], [rnd.randint(-16, 16) / 8.0 for _ in range(d)]) for _ in range(6)]
     if c["mode"] == "additive":
         c["parts"] = [rbox(rnd, d) for _ in range(rnd.randint(2, 3))]
+        # a box handed to the constructor of the wrapper itself
+        c["wrapper_box"] = rbox(rnd, d) if rnd.random() < 0.5 else None
     if c["mode"] == "composite":
         c["blocks"] = [(rnd.choice([1, 2]),) for _ in range(rnd.randint(2, 3))]
         c["blocks"] = [(n, rbox(rnd, n)) for (n,) in c["blocks"]]
+    if c["mode"] == "composite_own":
+        # unbounded blocks, one box handed to the CompositeDistribution constructor
+        c["blocks"] = [(rnd.choice([1, 2]), (None, None)) for _ in range(rnd.randint(2, 3))]
+        n = sum(b[0] for b in c["blocks"])
+        c["wrapper_box"] = rbox(rnd, n, "both")
+        c["mode"] = "composite"
     return c
 
 
@@ -99,7 +107,11 @@ def run_impl(c):
         for (l, u) in c["parts"]:
             parts.append(D.Normal(means.copy(), numpy.ones((d, 1)), lower_bounds=arr(l), upper_bounds=arr(u)))
             declared.append((l, u))
-        active = D.BayesRule(list(parts))
+        wb = c.get("wrapper_box")
+        if wb is not None:
+            active = D.BayesRule(list(parts), lower_bounds=arr(wb[0]), upper_bounds=arr(wb[1]))
+        else:
+            active = D.BayesRule(list(parts))
         second = D.BayesRule([parts[0], D.Normal(means.copy(), 2 * numpy.ones((d, 1)))])   # reuse of the first part
         parts_obs = [obs_box(p) for p in parts]
         for k, (p, (l, u)) in enumerate(zip(parts, declared)):
@@ -114,6 +126,8 @@ def run_impl(c):
             out["problems"].append(("collapsed-bounds-wrong", f"BayesRule([part0, unbounded]) has bounds {obs_box(second)}, part0 was declared with {declared[0]}"))
         twin = D.BayesRule([D.Normal(means.copy(), numpy.ones((d, 1))) for _ in parts])
     out["parts"] = [(p[0], p[1]) for p in (c.get("parts") or [])] if c["mode"] == "additive" else []
+    if c["mode"] == "additive" and c.get("wrapper_box") is not None:
+        out["parts"] = [tuple(c["wrapper_box"])] + out["parts"]        # the constructor's box is intersected first
     if c["mode"] == "composite":
         subs, lo_all, hi_all, tw = [], [], [], []
         for n, (l, u) in c["blocks"]:
@@ -121,7 +135,12 @@ def run_impl(c):
             tw.append(D.Normal(numpy.zeros((n, 1)), numpy.ones((n, 1))))
             lo_all += (l if l is not None else [-INF] * n)
             hi_all += (u if u is not None else [INF] * n)
-        active = D.CompositeDistribution(subs)
+        wb = c.get("wrapper_box")
+        if wb is not None:
+            active = D.CompositeDistribution(subs, lower_bounds=arr(wb[0]), upper_bounds=arr(wb[1]))
+            lo_all, hi_all = list(wb[0]), list(wb[1])
+        else:
+            active = D.CompositeDistribution(subs)
         twin = D.CompositeDistribution(tw)
         out["after"] = (lo_all, hi_all)
         out["old"] = (None, None)
